@@ -711,6 +711,19 @@ impl MleJaccard {
 
 //======================================================================================================
 
+#[cfg(probminhash_verif)]
+impl<I, T, H> SetSketcher<I, T, H>
+where
+    I: Integer + ToPrimitive + FromPrimitive + Bounded + Copy + Clone + std::fmt::Debug,
+    T: Hash,
+    H: Hasher + Default,
+{
+    /// verification hook : read-only copy of (lower_k, nbmin)
+    pub fn verif_state(&self) -> (f64, u64) {
+        (self.lower_k, self.nbmin)
+    }
+}
+
 #[cfg(test)]
 mod tests {
 
